@@ -9,6 +9,7 @@ import (
 	"reflect"
 	"strconv"
 	"strings"
+	"unsafe"
 
 	"golang.org/x/crypto/ssh"
 	"verifharness/hx"
@@ -133,8 +134,9 @@ func showStruct(ptr interface{}) string {
 	return strings.Join(parts, ";")
 }
 
-// setStruct fills *ptr from a value list; false if the list does not fit the struct.
-func setStruct(ptr interface{}, vals string) bool {
+// setStruct fills *ptr from a value list; false if the list does not fit the struct. With an arena, the []byte
+// field values are guarded arena buffers (Marshal's input must come back untouched).
+func setStruct(ptr interface{}, vals string, msArena *hx.Arena) bool {
 	v := reflect.ValueOf(ptr).Elem()
 	st := v.Type()
 	var parts []string
@@ -170,7 +172,11 @@ func setStruct(ptr interface{}, vals string) bool {
 		case "s":
 			f.SetString(string(hx.UnHex(body)))
 		case "y", "r":
-			f.SetBytes(hx.UnHex(body))
+			if msArena != nil {
+				f.SetBytes(msArena.In(st.Field(i).Name, hx.UnHex(body)))
+			} else {
+				f.SetBytes(hx.UnHex(body))
+			}
 		case "n":
 			l := []string{}
 			if body != "-" {
@@ -194,15 +200,45 @@ func setStruct(ptr interface{}, vals string) bool {
 	return true
 }
 
+// aliasOf lists the fields of *ptr whose bytes lie inside `data` (0-based field indices, "-" if none).
+// What the code does (and the model states): Unmarshal does not copy []byte fields — a `[]byte` field is a
+// sub-slice of the input (with capacity up to the end of the input) and a "rest" field is the input's tail;
+// strings, name-lists, arrays and mpints are copies.
+func aliasOf(ptr interface{}, data []byte) string {
+	if len(data) == 0 {
+		return "-"
+	}
+	lo := uintptr(unsafe.Pointer(&data[0]))
+	hi := lo + uintptr(len(data))
+	v := reflect.ValueOf(ptr).Elem()
+	st := v.Type()
+	var idx []int
+	for i := 0; i < v.NumField(); i++ {
+		if k := kindOf(st, i); k == "y" || k == "r" {
+			b := v.Field(i).Bytes()
+			if len(b) > 0 {
+				if p := uintptr(unsafe.Pointer(&b[0])); p >= lo && p < hi {
+					idx = append(idx, i)
+				}
+			}
+		}
+	}
+	return hx.JoinInts(idx)
+}
+
+// showUm runs Unmarshal on a guarded copy of data (FRAMEWORK.md caller-memory discipline): the input must come
+// back unmodified with its slack untouched (`mut=`), and the fields that alias it are reported (`alias=`).
 func showUm(name string, data []byte) string {
 	ptr := ssh.VerifNew(name)
 	if ptr == nil {
 		return "bad-op"
 	}
-	if err := ssh.Unmarshal(append([]byte(nil), data...), ptr); err != nil {
-		return "err:" + ssh.VerifErrClass(err)
+	a := hx.NewArena()
+	in := a.In("data", data)
+	if err := ssh.Unmarshal(in, ptr); err != nil {
+		return "err:" + ssh.VerifErrClass(err) + " mut=" + a.Check()
 	}
-	return "ok " + showStruct(ptr)
+	return "ok " + showStruct(ptr) + " mut=" + a.Check() + " alias=" + aliasOf(ptr, in)
 }
 
 // ---------------------------------------------------------------- exec
@@ -213,21 +249,26 @@ func exec(line string) string {
 	case "um":
 		return showUm(o.Str("t"), o.Hex("data"))
 	case "dec":
-		msg, err := ssh.VerifDecode(o.Hex("data"))
+		a := hx.NewArena()
+		in := a.In("data", o.Hex("data"))
+		msg, err := ssh.VerifDecode(in)
 		if err != nil {
-			return "err:" + ssh.VerifErrClass(err)
+			return "err:" + ssh.VerifErrClass(err) + " mut=" + a.Check()
 		}
-		return "ok " + reflect.TypeOf(msg).Elem().Name() + " " + showStruct(msg)
+		return "ok " + reflect.TypeOf(msg).Elem().Name() + " " + showStruct(msg) + " mut=" + a.Check() + " alias=" + aliasOf(msg, in)
 	case "ms":
 		ptr := ssh.VerifNew(o.Str("t"))
 		if ptr == nil {
 			return "bad-op"
 		}
-		if reflect.ValueOf(ptr).Elem().NumField() > 0 && !setStruct(ptr, o.Str("v")) {
+		a := hx.NewArena()
+		ok := reflect.ValueOf(ptr).Elem().NumField() == 0 || setStruct(ptr, o.Str("v"), a)
+		if !ok {
 			return "bad-op"
 		}
 		b := ssh.Marshal(ptr)
-		return hx.Hex(b) + " rt=" + showUm(o.Str("t"), b)
+		// Marshal must leave the value's byte slices alone and return memory of its own
+		return hx.Hex(b) + " mut=" + a.Check() + " rt=" + showUm(o.Str("t"), b)
 	case "int":
 		n, ok := new(big.Int).SetString(o.Str("n"), 10)
 		if !ok {
@@ -241,17 +282,19 @@ func exec(line string) string {
 		}
 		return fmt.Sprintf("%s len=%d w=%s back=%s", hx.Hex(written), length, w, back)
 	case "pint":
-		v, rest, ok := ssh.VerifParseInt(o.Hex("data"))
+		a := hx.NewArena()
+		v, rest, ok := ssh.VerifParseInt(a.In("data", o.Hex("data")))
 		if !ok {
-			return "err"
+			return "err mut=" + a.Check()
 		}
-		return "ok " + v.String() + " " + hx.Hex(rest)
+		return "ok " + v.String() + " " + hx.Hex(rest) + " mut=" + a.Check()
 	case "pnl":
-		l, rest, ok := ssh.VerifParseNameList(o.Hex("data"))
+		a := hx.NewArena()
+		l, rest, ok := ssh.VerifParseNameList(a.In("data", o.Hex("data")))
 		if !ok {
-			return "err"
+			return "err mut=" + a.Check()
 		}
-		return "ok " + showNames(l) + " " + hx.Hex(rest)
+		return "ok " + showNames(l) + " " + hx.Hex(rest) + " mut=" + a.Check()
 	case "schema":
 		ptr := ssh.VerifNew(o.Str("t"))
 		if ptr == nil {
@@ -413,7 +456,7 @@ func validMessage(r *hx.Rand, g *hx.Gen, name string) []byte {
 	if reflect.ValueOf(ptr).Elem().NumField() == 0 {
 		return []byte{52}
 	}
-	if !setStruct(ptr, randVals(r, g, name)) {
+	if !setStruct(ptr, randVals(r, g, name), nil) {
 		panic("gen: value list does not fit " + name)
 	}
 	return ssh.Marshal(ptr)
